@@ -9,7 +9,7 @@
   the dtype of the merged array is the dtype of the first piece visited (defect F4 is fixed).
 -/
 import FcModel.Mesh
-namespace Fc
+namespace Fc.C06
 
 /-- `_locations_in(shape)`: all index tuples below `shape`, the FIRST index running fastest -/
 def locationsIn : List Nat → List (List Nat)
@@ -192,4 +192,4 @@ def pieceExtent (d3 : List (List Nat)) (origin : List Int) (loc3 : List Nat) : L
     let o := origin.getD dir 0
     [o + (sumList (ns.take b) : Nat), o + (sumList (ns.take (b + 1)) : Nat)]
 
-end Fc
+end Fc.C06
